@@ -3,6 +3,7 @@ CONSTANTS MaxLen = 4
           Kinds2 = {"req", "opt", "kwreq", "kwopt"}
           Kinds3 = {"req", "opt", "kwreq", "kwopt"}
           Kinds4 = {"req", "opt"}
+          PathPolicy = "alongpath"
           MaxE4 = 4
 INIT Init
 NEXT Next
@@ -17,6 +18,8 @@ INVARIANT KeysCommute
 INVARIANT SubsetLaws
 INVARIANT PlusLaw
 INVARIANT TreePlusLaw
+INVARIANT PathLaw
+INVARIANT PathLeavesOperand
 INVARIANT SelectLaw
 INVARIANT RelabelLaw
 INVARIANT BlanketLaw
